@@ -643,4 +643,48 @@ def evalHistory {α β : Type} (f : α → β) : Unit → List α → Unit × Li
     let (st', rs) := evalHistory f st as
     (st', r :: rs)
 
+/-! ## `evaluate__codepoints_to_string` on arbitrary items (after the three fix-c09-3 commits)
+```
+for value in self[0].atomization(context):
+    if isinstance(value, UntypedAtomic):
+        try: value = int(value)
+        except ValueError as err: raise self.error('FORG0001', err) from None
+    if not isinstance(value, int) or isinstance(value, bool):
+        if isinstance(value, (str, bool)): raise self.error('XPTY0004', msg)
+        raise self.error('FORG0006', msg)
+    elif is_xml_codepoint(value): result.append(chr(value))
+    else: raise self.error('FOCH0001', msg)
+``` -/
+
+open EPV.FOStrings (CpItem CpErr)
+
+def codepointsToStringItems : List CpItem → Except CpErr Str
+  | [] => .ok []
+  | value :: rest =>
+    let converted : Except CpErr Int :=
+      match value with
+      | .untyped (some v) => .ok v
+      | .untyped none => .error .FORG0001
+      | .int v => .ok v
+      | .bool => .error .XPTY0004
+      | .str => .error .XPTY0004
+      | .other => .error .FORG0006
+    match converted with
+    | .error e => .error e
+    | .ok v =>
+      if isXmlCodepoint v then
+        match codepointsToStringItems rest with
+        | .ok r => .ok (v.toNat :: r)
+        | .error e => .error e
+      else .error .FOCH0001
+
+/-- Trigger predicate of known finding F09k: the first item that is not acceptable is a non-integer
+numeric value (the code answers FORG0006, pinned by the suite; F&O: XPTY0004) -/
+def cpItemsTrigger : List CpItem → Bool
+  | [] => false
+  | .other :: _ => true
+  | .int v :: rest => isXmlCodepoint v && cpItemsTrigger rest
+  | .untyped (some v) :: rest => isXmlCodepoint v && cpItemsTrigger rest
+  | _ :: _ => false
+
 end EPV.Strings
